@@ -31,6 +31,13 @@ pub struct Region {
     pub clones: u8,
     /// which copy is sent: 0 = original, k = k-th clone
     pub send_copy: u8,
+    /// (not for the first region) same contents as an earlier region of the message: length, seed
+    /// and fill are taken from region `same_as % i`
+    #[serde(default)]
+    pub same_as: Option<u8>,
+    /// with `same_as`: not merely equal contents but the very same region, referenced twice
+    #[serde(default)]
+    pub same_object: bool,
 }
 
 #[derive(Clone, Debug, Serialize, Deserialize)]
@@ -43,6 +50,9 @@ pub struct Case {
     /// inline data so large that the carrying message needs several packets
     #[serde(default)]
     pub multi_packet: bool,
+    /// >= 2: the first look at the received regions is taken by this many threads at once
+    #[serde(default)]
+    pub threads: u8,
 }
 
 fn page() -> u32 {
@@ -63,8 +73,8 @@ fn region_strategy(max_exp: u32) -> BoxedStrategy<Region> {
             (base + ((m as u64 * base) >> 32)) as u32
         }),
     ];
-    (len, any::<u64>(), proptest::option::weighted(0.35, any::<u8>()), 0u8..=3, 0u8..=3)
-        .prop_map(|(len, seed, fill, clones, send_copy)| Region { len, seed, fill, clones, send_copy })
+    (len, any::<u64>(), proptest::option::weighted(0.35, any::<u8>()), 0u8..=3, 0u8..=3, proptest::option::weighted(0.15, any::<u8>()), any::<bool>())
+        .prop_map(|(len, seed, fill, clones, send_copy, same_as, same_object)| Region { len, seed, fill, clones, send_copy, same_as, same_object })
         .boxed()
 }
 
@@ -82,8 +92,8 @@ impl Prop for C05 {
 
     fn strategy(ctx: &Ctx) -> BoxedStrategy<Case> {
         let max_exp = ctx.param_u64("max_exp", if ctx.thorough { 22 } else { 20 }) as u32;
-        (proptest::collection::vec(region_strategy(max_exp), 1..=8), proptest::collection::vec(0u16..600, 9), any::<bool>(), any::<bool>(), proptest::bool::weighted(0.3))
-            .prop_map(|(regions, pads, in_child, second_hop, multi_packet)| Case { regions, pads, in_child, second_hop, multi_packet })
+        (proptest::collection::vec(region_strategy(max_exp), 1..=8), proptest::collection::vec(0u16..600, 9), any::<bool>(), any::<bool>(), proptest::bool::weighted(0.3), prop_oneof![3 => Just(0u8), 2 => 2u8..=6])
+            .prop_map(|(regions, pads, in_child, second_hop, multi_packet, threads)| Case { regions, pads, in_child, second_hop, multi_packet, threads })
             .boxed()
     }
 
@@ -97,12 +107,21 @@ impl Prop for C05 {
         for (i, &len) in lens.iter().enumerate() {
             for fill in [None, Some(0u8), Some(0xA5)] {
                 for in_child in [false, true] {
-                    v.push(Case { regions: vec![Region { len, seed: i as u64 + 1, fill, clones: (i % 3) as u8, send_copy: (i % 2) as u8 }], pads: vec![0; 9], in_child, second_hop: i % 2 == 0, multi_packet: i % 3 == 1 });
+                    v.push(Case { regions: vec![Region { len, seed: i as u64 + 1, fill, clones: (i % 3) as u8, send_copy: (i % 2) as u8, same_as: None, same_object: false }], pads: vec![0; 9], in_child, second_hop: i % 2 == 0, multi_packet: i % 3 == 1, threads: if i % 4 == 3 { 4 } else { 0 } });
                 }
             }
         }
         // all boundary lengths together in one message, in order
-        v.push(Case { regions: lens.iter().take(8).enumerate().map(|(i, &len)| Region { len, seed: 77 + i as u64, fill: None, clones: 1, send_copy: 1 }).collect(), pads: vec![3; 9], in_child: true, second_hop: true, multi_packet: true });
+        v.push(Case { regions: lens.iter().take(8).enumerate().map(|(i, &len)| Region { len, seed: 77 + i as u64, fill: None, clones: 1, send_copy: 1, same_as: None, same_object: false }).collect(), pads: vec![3; 9], in_child: true, second_hop: true, multi_packet: true, threads: 0 });
+        // equal contents twice in one message: as two regions, and as one region referenced twice
+        for same_object in [false, true] {
+            for in_child in [false, true] {
+                for (len, fill) in [(p, Some(0u8)), (5000, None), (1, Some(7))] {
+                    let r = |same_as| Region { len, seed: 5, fill, clones: 0, send_copy: 0, same_as, same_object };
+                    v.push(Case { regions: vec![r(None), r(Some(0)), Region { len: 10, seed: 6, fill: None, clones: 0, send_copy: 0, same_as: None, same_object: false }, r(Some(0))], pads: vec![1; 9], in_child, second_hop: true, multi_packet: false, threads: 0 });
+                }
+            }
+        }
         v
     }
 
@@ -119,6 +138,32 @@ fn check(what: &str, i: usize, got: &[u8], want: &[u8]) -> Result<(), Failure> {
         fail!("region:content-differs", "{}: region {} ({} bytes) differs at byte {:?}", what, i, want.len(), payload::first_diff(got, want));
     }
     Ok(())
+}
+
+/// The first access to freshly received regions, from `threads` threads released together.
+fn concurrent_first_look(regs: &[IpcSharedMemory], wants: &[Vec<u8>], threads: usize) -> Option<String> {
+    let gate = std::sync::atomic::AtomicUsize::new(0);
+    let bad = std::sync::Mutex::new(None);
+    std::thread::scope(|sc| {
+        for t in 0..threads {
+            let (gate, bad) = (&gate, &bad);
+            sc.spawn(move || {
+                gate.fetch_add(1, std::sync::atomic::Ordering::SeqCst);
+                while gate.load(std::sync::atomic::Ordering::SeqCst) < threads {
+                    std::hint::spin_loop();
+                }
+                for (i, r) in regs.iter().enumerate() {
+                    if i < wants.len() && &r[..] != &wants[i][..] {
+                        let mut b = bad.lock().unwrap();
+                        if b.is_none() {
+                            *b = Some(format!("first look from {} threads at once (thread {}): region {}: {} bytes (hash {:x}) instead of {} bytes (hash {:x})", threads, t, i, r.len(), payload::fnv64(r), wants[i].len(), payload::fnv64(&wants[i])));
+                        }
+                    }
+                }
+            });
+        }
+    });
+    bad.into_inner().unwrap()
 }
 
 fn receive(rx: &ipc::IpcReceiver<Node>) -> Result<Vec<IpcSharedMemory>, String> {
@@ -147,7 +192,24 @@ fn receive(rx: &ipc::IpcReceiver<Node>) -> Result<Vec<IpcSharedMemory>, String> 
 
 fn run(case: &Case) -> Result<Outcome, Failure> {
     let in_child = case.in_child && !cfg!(feature = "inproc");
-    let wants: Vec<Vec<u8>> = case.regions.iter().map(expected).collect();
+    // resolve "same contents as an earlier region"
+    let mut regions: Vec<Region> = vec![];
+    for (i, r) in case.regions.iter().enumerate() {
+        let mut r = r.clone();
+        match r.same_as {
+            Some(j) if i > 0 => {
+                let j = j as usize % i;
+                r.same_as = Some(j as u8);
+                r.len = regions[j].len;
+                r.seed = regions[j].seed;
+                r.fill = regions[j].fill;
+            },
+            _ => r.same_as = None,
+        }
+        regions.push(r);
+    }
+    let threads = if case.threads >= 2 { case.threads.min(8) as usize } else { 0 };
+    let wants: Vec<Vec<u8>> = regions.iter().map(expected).collect();
     let n = case.regions.len();
     let (tx, rx) = ipc::channel::<Node>().map_err(|e| Failure::inconclusive(e.to_string()))?;
     let (tx2, rx2) = ipc::channel::<Node>().map_err(|e| Failure::inconclusive(e.to_string()))?;
@@ -173,6 +235,11 @@ fn run(case: &Case) -> Result<Outcome, Failure> {
                 },
             };
             let mut report = String::new();
+            if threads >= 2 {
+                if let Some(e) = concurrent_first_look(&regs, &wants_c, threads) {
+                    report = e;
+                }
+            }
             let mut verify = |phase: &str, regs: &[IpcSharedMemory]| {
                 if regs.len() != wants_c.len() && report.is_empty() {
                     report = format!("{}: {} regions arrived, {} sent", phase, regs.len(), wants_c.len());
@@ -206,8 +273,11 @@ fn run(case: &Case) -> Result<Outcome, Failure> {
     let mut originals = vec![];
     let mut to_send = vec![];
     let mut extra_clones = vec![];
-    for (i, r) in case.regions.iter().enumerate() {
-        let orig = node::make_region(r.len, r.seed, r.fill);
+    for (i, r) in regions.iter().enumerate() {
+        let orig = match r.same_as {
+            Some(j) if r.same_object => IpcSharedMemory::clone(&originals[j as usize]),
+            _ => node::make_region(r.len, r.seed, r.fill),
+        };
         check("at creation", i, &orig, &wants[i])?;
         let mut clones = vec![];
         for _ in 0..r.clones {
@@ -268,6 +338,11 @@ fn run(case: &Case) -> Result<Outcome, Failure> {
         Err(h) => return Err(sandbox::hang_failure("region:receive-hangs", "receiving a message with regions", h)),
     };
     ensure!(regs.len() == n, "region:count-differs", "{} regions sent, {} arrived", n, regs.len());
+    if threads >= 2 {
+        if let Some(e) = concurrent_first_look(&regs, &wants, threads) {
+            fail!("region:content-differs", "{}", e);
+        }
+    }
     for (i, r) in regs.iter().enumerate() {
         check("after receipt", i, r, &wants[i])?;
     }
@@ -313,5 +388,8 @@ fn classify(case: &Case, in_child: bool) -> Outcome {
     )
     .replace("one-region", if case.multi_packet { "multi-packet-message/one-region" } else { "one-region" })
     .replace("multi-region", if case.multi_packet { "multi-packet-message/multi-region" } else { "multi-region" });
+    let equal = case.regions.iter().enumerate().any(|(i, r)| i > 0 && r.same_as.is_some());
+    let same_obj = case.regions.iter().enumerate().any(|(i, r)| i > 0 && r.same_as.is_some() && r.same_object);
+    let class = format!("{}{}{}", class, if same_obj { "+same-region-twice" } else if equal { "+equal-contents" } else { "" }, if case.threads >= 2 { "+concurrent-first-look" } else { "" });
     Outcome::new(nt, class).with("regions", case.regions.len() as u64)
 }
